@@ -136,3 +136,11 @@ pub fn k_f64_conjugate_base() {
     vcheck!("C10.f64.conjugate.identity", x.conjugate().0 == x.0);
     vcheck!("C10.f64.base_element.0", x.base_element(0).0 == x.0);
 }
+
+// The constants the Verus unit f64_core assumes (axiom_zero) checked on the real code: ZERO = new(0) is the
+// inner value 0; ONE = new(1) is 2^64 mod M = 2^32 - 1 (Montgomery form of 1). Concrete evaluation.
+//# harness: fn=f64 FieldElement::ZERO, FieldElement::ONE; label=complete; tier=quick
+#[cfg_attr(kani, kani::proof)]
+pub fn k_f64_constants_zero_one() {
+    vcheck!("C10.f64.constants.zero_one", BaseElement::ZERO.0 == 0 && BaseElement::ONE.0 == 0xFFFF_FFFF);
+}
